@@ -65,6 +65,10 @@ CHECKS = {
    text="The transform is compared with an independent projective solve in 256-bit floats over rapid-generated convex quadrilateral pairs; sampled grids are compared cell by cell with the image pixel under the independently transformed cell centre; the nudge rules are enumerated on all four sides, both row ends and 11 distances, directly and through sampling with translated / sheared grids; all-black images detect any read outside the image.",
    note="Trusted: the 8x8 Gaussian elimination in big.Float in checks/c19. Cells within 1e-6 of a pixel boundary are skipped; degenerate quadrilaterals are not generated.",
    tech="property-based testing against an extended-precision reference + enumerated edge-rule cases"),
+ "C17": dict(cat="exploration", ref="DESIGN.md §4 C17",
+   text="Model-based testing of luminance views: eight source kinds x generated sizes / pixel contents x sequences of up to six crop / invert / rotate operations (valid and invalid) against a naive 2-D array model, every row and the full matrix compared after each step; bilevel images (incl. rendered symbols of all writers, sizes around the 40-pixel switch) through both binarisers and the BinaryBitmap API against the exact black-pixel model.",
+   note="Trusted: the naive model in checks/c17. Colour-to-luminance conversion is only checked at opaque black / white / gray; single-colour rows may be rejected or binarised exactly.",
+   tech="model-based property testing (rapid) against a naive array model"),
 }
 
 NOT_YET = {}
